@@ -705,13 +705,21 @@ def Tys.depth : Tys → Nat
   | .cons t ts => max t.depth ts.depth
 end
 
+/-- what edf.Decode hands back for the value decoded at the top-level type: `value.Interface()` of an interface-typed
+    slot is the dynamic value (or nil), a nil error is nil -/
+def topNorm : Ty → Val → Option (Ty × Val)
+  | .any, .any t v => some (t, v)
+  | .any, _ => none
+  | .error, .nil => none
+  | t, v => some (t, v)
+
 /-- edf.Decode (decode.go:31): `ok (none, rest)` = nil value. Panics are recovered into an error (lib.Recover()). -/
 def decodeRaw (o : Opts) (fuel : Nat) (bs : Bytes) : Res (Option (Ty × Val) × Bytes) :=
   match getDecoder o true bs with
   | .ok (none, r, _) => .ok (none, r)
   | .ok (some t, r, dt) =>
     (match dec o fuel dt t r with
-     | .ok (v, r') => .ok (some (t, v), r')
+     | .ok (v, r') => .ok (topNorm t v, r')
      | .err => .err
      | .panic => .panic)
   | .err => .err
